@@ -89,11 +89,11 @@ var _ *pb.SharedGroupProposal
 //@ func field:storage/raft.RaftGroup.processFn
 //@ props C03 C05
 //@ assume
-//@ modifies * except type RaftGroup.raftLeaderId; type RaftGroup.transport; type RaftGroup.raft; type RaftGroup.wal; type RaftGroup.processFn; type RaftGroup.processSnapshotFn; type RaftGroup.snapshotFn; type RaftGroup.ctx; type RaftGroup.log; type RaftGroup.id; type RaftGroup.raftConfState; type RaftTransport.nodeId
+//@ modifies * except type RaftGroup.raftLeaderId; type RaftGroup.transport; type RaftGroup.raft; type RaftGroup.wal; type RaftGroup.processFn; type RaftGroup.processSnapshotFn; type RaftGroup.snapshotFn; type RaftGroup.ctx; type RaftGroup.log; type RaftGroup.id; type RaftGroup.raftConfState; type raftpb.ConfState.Nodes; type raftpb.ConfState.Learners; type RaftTransport.nodeId
 //@ func field:storage/raft.RaftGroup.processSnapshotFn
 //@ props C03 C05
 //@ assume
-//@ modifies * except type RaftGroup.raftLeaderId; type RaftGroup.transport; type RaftGroup.raft; type RaftGroup.wal; type RaftGroup.processFn; type RaftGroup.processSnapshotFn; type RaftGroup.snapshotFn; type RaftGroup.ctx; type RaftGroup.log; type RaftGroup.id; type RaftGroup.raftConfState; type RaftTransport.nodeId; set catalogue
+//@ modifies * except type RaftGroup.raftLeaderId; type RaftGroup.transport; type RaftGroup.raft; type RaftGroup.wal; type RaftGroup.processFn; type RaftGroup.processSnapshotFn; type RaftGroup.snapshotFn; type RaftGroup.ctx; type RaftGroup.log; type RaftGroup.id; type RaftGroup.raftConfState; type raftpb.ConfState.Nodes; type raftpb.ConfState.Learners; type RaftTransport.nodeId; set catalogue
 //@ func field:storage/raft.RaftGroup.snapshotFn
 //@ props C03 C05
 //@ assume
@@ -145,6 +145,7 @@ var _ *pb.SharedGroupProposal
 //@ ghost sent int = 0
 //@ ghost leaderTests int = 0
 //@ ghost leaderTop int = 0
+//@ ghost ccs int = 0
 //@ at call WAL.Save
 //@ set saved = ite(isnil($ret0), 1, 0)
 //@ end
@@ -164,9 +165,15 @@ var _ *pb.SharedGroupProposal
 //@ end
 //@ at call RaftGroup).processConfChange
 //@ requires [C03 C05 confchange-after-save] saved == 1
+//@ set ccs = ccs + 1
 //@ end
 //@ at call Node.Advance
 //@ requires [C05 advance-last] saved == 1 && sent == 1 && rangeindex + 1 == len(rd.CommittedEntries)
+// membership is part of what a restart resumes from: a snapshot received from the leader replaces the entries it covers,
+// configuration changes included - unless a later configuration change of the same Ready was applied, the group's recorded
+// membership (what its next local snapshot will carry) is the installed snapshot's
+//@ requires [C05 membership-follows-installed-snapshot] rd.Snapshot.Metadata.Index != 0 && ccs == 0 ==> this.raftConfState != nil && this.raftConfState.Nodes == rd.Snapshot.Metadata.ConfState.Nodes && this.raftConfState.Learners == rd.Snapshot.Metadata.ConfState.Learners
+//@ set ccs = 0
 //@ set saved = 0
 //@ set sent = 0
 //@ set leaderTests = 0
@@ -181,10 +188,11 @@ var _ *pb.SharedGroupProposal
 //@ requires [wf] wfGroup(this)
 //@ modifies *
 //@ loop 1
-//@ invariant [between-readys] wfGroup(this) && saved == 0 && sent == 0 && leaderTests == 0 && leaderTop == 0
+//@ invariant [between-readys] wfGroup(this) && saved == 0 && sent == 0 && leaderTests == 0 && leaderTop == 0 && ccs == 0
 //@ loop 2
 //@ invariant [in-ready] wfGroup(this) && saved == 1 && leaderTests == 1 && sent == leaderTop && (leaderTop == 1) == (this.raftLeaderId == this.transport.nodeId) && (leaderTop == 0 || leaderTop == 1) && 0 - 1 <= rangeindex && rangeindex + 1 <= len(rd.CommittedEntries)
 //@ invariant [C03 applied-index] rangeindex >= 0 ==> lastAppliedIdx == entry.Index
+//@ invariant [C05 membership-follows-installed-snapshot] ccs >= 0 && (rd.Snapshot.Metadata.Index != 0 && ccs == 0 ==> this.raftConfState != nil && this.raftConfState.Nodes == rd.Snapshot.Metadata.ConfState.Nodes && this.raftConfState.Learners == rd.Snapshot.Metadata.ConfState.Learners)
 
 // C03: recovery. Start re-installs the stored snapshot (if any) before the ready loop is launched, and fails if that fails.
 //@ func (*storage/raft.RaftGroup).Start
